@@ -716,3 +716,51 @@ package gts
 //@   loop 2: invariant forall j in 0..len(ff): filter(ff[j]) ==> 0 <= I(j) && I(j) < len(indices) && indices[I(j)] == j
 //@   loop 2: invariant forall k in 0..i: gg[k] == ff[indices[k]]
 //@   loop 2: decreases len(indices) - i
+
+//@ func (v withTopology) WithTopology(t Topology) (out Sequence)
+//@   trusted interface contract assumed for implementations outside package gts (GenBank)
+//@   ensures !isnil(out) && sameslice(bytesOf(out), bytesOf(v)) && sameslice(featsOf(out), featsOf(v))
+//@   assigns nothing
+//@ func WithTopology(seq Sequence, t Topology) (out Sequence)
+//@   prop C11 C03
+//@   requires !isnil(seq)
+//@   ensures !isnil(out) && sameslice(bytesOf(out), bytesOf(seq)) && sameslice(featsOf(out), featsOf(seq))
+//@   assigns nothing
+
+//@ func (props Props) Clone() (ret Props)
+//@   prop C11
+//@   ensures fresh(ret) && len(ret) == len(props)
+//@   ensures forall i in 0..len(props): fresh(ret[i]) && len(ret[i]) == len(props[i])
+//@   assigns nothing
+//@   loop 1: invariant fresh(ret) && len(ret) == len(props)
+//@   loop 1: invariant forall k in 0..i: fresh(ret[k]) && len(ret[k]) == len(props[k])
+//@   loop 1: decreases len(props) - i
+
+//@ func Reverse(seq Sequence) (out Sequence)
+//@   prop C05 C11
+//@   requires !isnil(seq) && oldSeq(seq)
+//@   ensures !isnil(out) && len(bytesOf(out)) == len(bytesOf(seq)) && fresh(bytesOf(out))
+//@   ensures mirrored: forall k in 0..len(bytesOf(out)): bytesOf(out)[k] == old(bytesOf(seq)[len(bytesOf(seq))-1-k])
+//@   ensures count: len(featsOf(out)) == len(featsOf(seq)) && fresh(featsOf(out))
+//@   assigns nothing
+//@   loop 1: invariant len(ff) == idx1 && fresh(ff)
+//@   loop 1: decreases len(featsOf(seq)) - idx1
+
+//@ lemma emodShift(a, m int)
+//@   prop C04
+//@   requires 0 < m
+//@   ensures emod(a + m, m) == emod(a, m)
+
+//@ func Rotate(seq Sequence, n int) (out Sequence)
+//@   prop C04 C11
+//@   requires !isnil(seq) && oldSeq(seq) && 0 < len(bytesOf(seq)) && coord(n) && coord(len(bytesOf(seq)))
+//@   ensures !isnil(out) && len(bytesOf(out)) == len(bytesOf(seq)) && fresh(bytesOf(out))
+//@   ensures low: forall k in 0..emod(n, len(bytesOf(seq))): bytesOf(out)[k] == old(bytesOf(seq)[len(bytesOf(seq)) - emod(n, len(bytesOf(seq))) + k])
+//@   ensures high: forall k in emod(n, len(bytesOf(seq)))..len(bytesOf(out)): bytesOf(out)[k] == old(bytesOf(seq)[k - emod(n, len(bytesOf(seq)))])
+//@   ensures count: len(featsOf(out)) == len(featsOf(seq)) && fresh(featsOf(out))
+//@   assigns nothing
+//@   loop 1: invariant emod(n, len(bytesOf(seq))) == emod(old(n), len(bytesOf(seq))) && n <= 0 + max(old(n), len(bytesOf(seq)))
+//@   loop 1: use emodShift(n, len(bytesOf(seq)))
+//@   loop 1: decreases 0 - n
+//@   loop 2: invariant len(ff) == idx2 && fresh(ff)
+//@   loop 2: decreases len(featsOf(seq)) - idx2
